@@ -107,7 +107,7 @@ func genPathComponent(rng *RNG) string {
 	var sb strings.Builder
 	sb.WriteString(genAlnumLower(rng, 1+rng.Intn(4)))
 	for k := rng.Intn(3); k > 0; k-- {
-		sb.WriteString(pick(rng, []string{".", "_", "__", "-", "--", "---"}))
+		sb.WriteString(pick(rng, []string{".", "_", "__", "-", "--", "---", ".", "_", "__", "-", "___", "..", "_.", "-_"}))
 		sb.WriteString(genAlnumLower(rng, 1+rng.Intn(3)))
 	}
 	return sb.String()
@@ -348,6 +348,16 @@ func (*c17) Oracle(c Case, impl []string) []Failure {
 			continue
 		}
 		switch t[1] {
+		case "repo":
+			s, _ := untok(t[2])
+			if (got == "1") != refRepoValid(s) {
+				fail("ref-repo-grammar", "repository_grammar", map[bool]string{true: "1", false: "0"}[refRepoValid(s)]+" (path components [a-z0-9]+ joined by one of . _ __ or dashes, components joined by /)")
+			}
+		case "tag":
+			s, _ := untok(t[2])
+			if (got == "1") != refTagValid(s) {
+				fail("ref-tag-grammar", "tag_grammar", map[bool]string{true: "1", false: "0"}[refTagValid(s)])
+			}
 		case "parserel", "parse":
 			s, _ := untok(t[2])
 			ok, p := parseRefOut(got)
@@ -393,6 +403,60 @@ func (*c17) Oracle(c Case, impl []string) []Failure {
 		}
 	}
 	return fs
+}
+
+// refRepoValid is the documented repository grammar, written independently of the regular
+// expression: slash-separated components; a component is runs of [a-z0-9] separated by exactly one
+// of ".", "_", "__" or one or more dashes.
+func refRepoValid(s string) bool {
+	if s == "" {
+		return false
+	}
+	for _, comp := range strings.Split(s, "/") {
+		if comp == "" {
+			return false
+		}
+		alnum := func(c byte) bool { return c >= 'a' && c <= 'z' || c >= '0' && c <= '9' }
+		i := 0
+		if !alnum(comp[0]) || !alnum(comp[len(comp)-1]) {
+			return false
+		}
+		for i < len(comp) {
+			if alnum(comp[i]) {
+				i++
+				continue
+			}
+			j := i
+			for j < len(comp) && !alnum(comp[j]) {
+				j++
+			}
+			sep := comp[i:j]
+			okSep := sep == "." || sep == "_" || sep == "__" || strings.Trim(sep, "-") == ""
+			if !okSep {
+				return false
+			}
+			i = j
+		}
+	}
+	return true
+}
+
+func refTagValid(s string) bool {
+	if len(s) == 0 || len(s) > 128 {
+		return false
+	}
+	word := func(c byte) bool {
+		return c == '_' || c >= 'a' && c <= 'z' || c >= 'A' && c <= 'Z' || c >= '0' && c <= '9'
+	}
+	if !word(s[0]) {
+		return false
+	}
+	for i := 1; i < len(s); i++ {
+		if !word(s[i]) && s[i] != '.' && s[i] != '-' {
+			return false
+		}
+	}
+	return true
 }
 
 func lastPanicFor(got string) string {
